@@ -13,6 +13,20 @@ pub struct Violation {
     pub detail: String,
 }
 
+/// One interpreter run recorded for cross-validation against an independent disassembler.
+#[derive(Clone, Debug)]
+pub struct Trace {
+    pub arch: &'static str,
+    pub thumb_entry: bool,
+    /// (address, bytes) of every executed instruction, in order
+    pub insns: Vec<(u64, Vec<u8>)>,
+    pub final_pc: u64,
+}
+
+thread_local! {
+    pub static TRACES: std::cell::RefCell<Option<Vec<Trace>>> = const { std::cell::RefCell::new(None) };
+}
+
 #[derive(Default, Clone, Debug)]
 pub struct Outcome {
     pub violations: Vec<Violation>,
@@ -304,6 +318,23 @@ impl<'a> Checker<'a> {
                         allowed.push((s, e));
                         let x = self.run_interp(w, *t, &allowed, stop);
                         steps += x.steps as u64;
+                        TRACES.with(|tr| {
+                            if let Some(v) = tr.borrow_mut().as_mut() {
+                                if v.len() < 4096 && x.error.is_none() && x.lens.len() == x.executed.len() {
+                                    let insns = x.executed.iter().zip(x.lens.iter()).map(|(a, l)| (*a, w.peek(*a, *l as usize).unwrap_or_default())).collect();
+                                    v.push(Trace {
+                                        arch: match self.arch {
+                                            Arch::X86_64 => "x86_64",
+                                            Arch::A64 => "aarch64",
+                                            Arch::Arm => "arm",
+                                        },
+                                        thumb_entry: self.arch == Arch::Arm && t & 1 == 1,
+                                        insns,
+                                        final_pc: x.final_pc,
+                                    });
+                                }
+                            }
+                        });
                         match inst {
                             Inst::Fake(f) => {
                                 let want_pc = *f;
